@@ -155,16 +155,46 @@ SETOPS = {
     "subset": ("src/relations/subset.rs", "SetSubsetFxn", "rel"),
     "superset": ("src/relations/superset.rs", "SetSupersetFxn", "rel"),
     "proper_subset": ("src/relations/proper_subset.rs", "SetProperSubsetFxn", "rel"),
+    "proper_superset": ("src/relations/proper_superset.rs", "SetProperSupersetFxn", "rel"),
+    "disjoint": ("src/relations/disjoint.rs", "SetDisjointFxn", "rel"),
+    "equals": ("src/relations/equals.rs", "SetEqualsFxn", "rel"),
+    "not_equals": ("src/relations/not_equals.rs", "SetNotEqualsFxn", "rel"),
+    "not_element_of": ("src/membership/not_element_of.rs", "SetNotElementOfFxn", "mem"),
     "union": ("src/operations/union.rs", "SetUnionFxn", "op"),
     "intersection": ("src/operations/intersection.rs", "SetIntersectionFxn", "op"),
     "difference": ("src/operations/difference.rs", "SetDifferenceFxn", "op"),
     "symmetric_difference": ("src/operations/symmetric_difference.rs", "SetSymDifferenceFxn", "op"),
     "element_of": ("src/membership/element_of.rs", "SetElementOfFxn", "mem"),
 }
+# feature slice of mech-set / mech-core for the set-algebra harnesses: the Value enum keeps the u8, bool, set, tuple and the
+# always-present variants only, so that a heap-resident element whose tag symbolic execution cannot fold costs a handful of arms
+SET_SLICE = "u8,bool,string,matrixd,vectord,row_vectord,set,vp_core_set,tuple,functions,compiler,operations_default,relations_default,membership_default,modify_default,setdata_default"
 SET_PRELUDE = HASHER_STUBS + '''
-  pub fn vp_set(xs: &[u8]) -> MechSet { let mut v = Vec::new(); let mut i = 0; while i < xs.len() { v.push(Value::U8(Ref::new(xs[i]))); i += 1; } MechSet::from_vec(v) }
+  // an arbitrary valid set state of known size: the elements are pairwise distinct (assumed by the caller), kind and num_elements are
+  // what MechSet::from_vec / from_set would record (decided separately by c14_from_vec_u8)
+  pub fn vp_set(xs: &[u8]) -> MechSet { let mut v = Vec::new(); let mut i = 0; while i < xs.len() { v.push(Value::U8(Ref::new(xs[i]))); i += 1; }
+    let n = xs.len(); MechSet { kind: if n > 0 { ValueKind::U8 } else { ValueKind::Empty }, num_elements: n, set: indexmap::IndexSet::vp_from_distinct_vec(v) } }
+  // Every Value in the set-algebra harnesses is a Value::U8 element.  After a data-dependent filter (`a.difference(&b)`, ...) the
+  // element pointer is a solver-level choice and CBMC's symbolic execution no longer knows the enum tag: the derived
+  // `Value::clone` is then explored for all ~60 variants (ValueKind::clone recursion included): no verdict.  The stub is the U8 arm
+  // of the derived clone; any other variant reaching it is reported (panic), not assumed away.
+  pub fn vp_value_clone_u8(v: &Value) -> Value { match v { Value::U8(r) => Value::U8(r.clone()), _ => panic!("VP:model-non-u8-value-cloned") } }
+  // same reason, same shape: the U8 arm of the derived PartialEq (Ref<u8> == Ref<u8> compares the cell contents)
+  pub fn vp_value_eq_u8(a: &Value, b: &Value) -> bool { match (a, b) { (Value::U8(x), Value::U8(y)) => *x.borrow() == *y.borrow(), _ => panic!("VP:model-non-u8-value-compared") } }
   pub fn vp_has(s: &MechSet, x: u8) -> bool { let mut found = false; for v in s.set.iter() { if let Value::U8(c) = v { if *c.borrow() == x { found = true; } } } found }
 '''
+
+
+def rel_outcomes(op, na, nb):
+    """truth values the mathematical definition takes over all pairs of sets of na / nb distinct elements of {0,1,2,3}"""
+    import itertools
+    out = set()
+    for A in itertools.combinations(range(4), na):
+        for B in itertools.combinations(range(4), nb):
+            A_, B_ = set(A), set(B)
+            out.add({"subset": A_ <= B_, "superset": A_ >= B_, "proper_subset": A_ < B_, "proper_superset": A_ > B_,
+                     "disjoint": not (A_ & B_), "equals": A_ == B_, "not_equals": A_ != B_}[op])
+    return out
 
 
 def member(x, xs):
@@ -181,15 +211,22 @@ def gen_setop(op, na, nb, tier):
     # all values from a tiny universe so that coincidences (a_i == b_j, duplicates) are common cases, not needles
     if A + B:
         b.append("kani::assume(%s);" % " && ".join("%s < 4" % v for v in A + B))
+    for L in (A, B):
+        for i in range(len(L)):
+            for j in range(i + 1, len(L)):
+                b.append("kani::assume(%s != %s);" % (L[i], L[j]))
     b.append("let sa = Ref::new(vp_set(&[%s])); let sb = Ref::new(vp_set(&[%s]));" % (", ".join(A), ", ".join(B)))
     if kind == "rel":
         b.append("let f = %s { lhs: sa.clone(), rhs: sb.clone(), out: Ref::new(false) };" % struct)
         b.append("f.solve();")
         sub = " && ".join(member(x, B) for x in A) if A else "true"       # A subset of B
         sup = " && ".join(member(y, A) for y in B) if B else "true"       # A superset of B
-        want = {"subset": sub, "superset": sup, "proper_subset": "(%s) && !(%s)" % (sub, sup)}[op]
+        disj = " && ".join("!" + member(x, B) for x in A) if (A and B) else "true"
+        want = {"subset": sub, "superset": sup, "proper_subset": "(%s) && !(%s)" % (sub, sup), "proper_superset": "(%s) && !(%s)" % (sup, sub),
+                "disjoint": disj, "equals": "(%s) && (%s)" % (sub, sup), "not_equals": "!((%s) && (%s))" % (sub, sup)}[op]
         b.append("let want: bool = %s;" % want)
-        b.append("kani::cover!(want, \"VP:reached-true\"); kani::cover!(!want, \"VP:reached-false\");" if (na and nb) else "kani::cover!(true, \"VP:reached\");")
+        outcomes = rel_outcomes(op, na, nb)      # which truth values the definition can take for these sizes (vacuity witnesses)
+        b.append(" ".join("kani::cover!(%swant, \"VP:reached-%s\");" % ("" if o else "!", "true" if o else "false") for o in sorted(outcomes)))
         b.append("assert!(*f.out.borrow() == want, \"VP:set-relation-disagrees-with-definition\");")
     elif kind == "op":
         b.append("let f = %s { lhs: sa.clone(), rhs: sb.clone(), out: Ref::new(MechSet::new(ValueKind::Empty, 0)) };" % struct)
@@ -207,8 +244,8 @@ def gen_setop(op, na, nb, tier):
         b.append("let e: u8 = kani::any(); kani::assume(e < 4);")
         b.append("let f = %s { elem: Ref::new(Value::U8(Ref::new(e))), set: sa.clone(), out: Ref::new(false) };" % struct)
         b.append("f.solve();")
-        b.append("let want: bool = %s;" % member("e", A))
-        b.append("kani::cover!(want, \"VP:reached-true\");" if na else "kani::cover!(true, \"VP:reached\");")
+        b.append("let want: bool = %s%s;" % ("!" if op == "not_element_of" else "", member("e", A)))
+        b.append("kani::cover!(want, \"VP:reached-true\"); kani::cover!(!want, \"VP:reached-false\");" if na else "kani::cover!(true, \"VP:reached\");")
         b.append("assert!(*f.out.borrow() == want, \"VP:membership-disagrees-with-definition\");")
     b.append("forget(f); forget(sa); forget(sb);")
     h = H("c14_set_%s_%d_%d" % (op, na, nb), "    " + "\n    ".join(b), ("set", relp), domain="accept", key="set-algebra/%s/%d.%d" % (op, na, nb),
@@ -217,7 +254,13 @@ def gen_setop(op, na, nb, tier):
           functions=["%s::solve (machines/set/%s)" % (struct, relp), "MechSet::from_vec", "IndexSet::{insert,union,intersection,difference,"
                      "symmetric_difference,is_subset,is_superset,contains} as compiled", "<Value as Hash>::hash / PartialEq for U8"],
           bounds="|A| = %d, |B| = %d, element values 0..3" % (na, nb), unwind=max(na, nb, 4) + 3, tier=tier, group="set-algebra", solver="kissat")
-    h.attrs = [STUB_RS] + STUB_DH
+    # no hasher stubs: under the IndexSet model (engine/models/indexset_model.rs) nothing hashes.  Value::kind() is replaced by the
+    # constant ValueKind::U8: every Value in these harnesses is a Value::U8 element (kind() is only called on elements, to label
+    # the result set), for which the real kind() returns exactly that
+    h.stub_kind_as = "U8"
+    h.slice = SET_SLICE
+    if kind == "op":
+        h.attrs = ["#[kani::stub(<mech_core::Value as ::std::clone::Clone>::clone, vp_value_clone_u8)]"]
     h.rec_limit = 1
     h.heavy = True
     return h
@@ -242,29 +285,70 @@ def plan(tier, seed):
     hs.append(gen_total("matrix_f32", "Value::MatrixF32(Matrix::RowDVector(Ref::new(RowDVector::from_vec(vec![kani::any::<f32>()]))))",
                         "a f32 matrix", "thorough", unwind=18))
     hs.append(gen_total("index_all", "Value::IndexAll", "Value::IndexAll", "thorough"))
+    if os.environ.get("VERIF_C14_PROBE"):
+        probes = {
+            "push": "let mut v: Vec<Value> = Vec::new(); v.push(Value::U8(Ref::new(x))); v.push(Value::U8(Ref::new(y)));",
+            "lit": "let v: Vec<Value> = vec![Value::U8(Ref::new(x)), Value::U8(Ref::new(y))];",
+            "cap": "let mut v: Vec<Value> = Vec::with_capacity(2); v.push(Value::U8(Ref::new(x))); v.push(Value::U8(Ref::new(y)));",
+            "arr": "let v: [Option<Value>; 4] = [Some(Value::U8(Ref::new(x))), Some(Value::U8(Ref::new(y))), None, None]; let v = Box::new(v);",
+        }
+        for n in ("eq_ab", "eq_ba"):
+            body = ["let x: u8 = kani::any(); let y: u8 = kani::any(); let c: bool = kani::any();",
+                    "let mut v: Vec<Value> = Vec::with_capacity(2); v.push(Value::U8(Ref::new(x))); if c { v.push(Value::U8(Ref::new(y))); }",
+                    "let a = Value::U8(Ref::new(y));",
+                    "if v.len() > 1 { let e = %s; assert!(e, \"VP:probe\"); }" % ("a == v[1]" if n == "eq_ab" else "v[1] == a"),
+                    "kani::cover!(true, \"VP:reached\"); forget(a); forget(v);"]
+            hs.append(H("c14_probe_%s" % n, "    " + "\n    ".join(body), WHERE, domain="accept", key="probe/" + n, unwind=6, tier="quick"))
+        for n, init in probes.items():
+            body = ["let x: u8 = kani::any(); let y: u8 = kani::any();", init]
+            if n == "arr":
+                body.append("let c = v[1].as_ref().unwrap().clone();")
+            else:
+                body.append("let c = v[1].clone();")
+            body.append("let ok = match &c { Value::U8(r) => *r.borrow() == y, _ => false };")
+            body.append("assert!(ok, \"VP:probe\"); kani::cover!(true, \"VP:reached\"); forget(c); forget(v);")
+            hs.append(H("c14_probe_%s" % n, "    " + "\n    ".join(body), WHERE, domain="accept", key="probe/" + n, unwind=6, tier="quick"))
     pre = {WHERE: PRELUDE}
-    sizes = [(2, 0), (0, 2), (1, 1), (2, 1), (1, 2), (2, 2), (0, 0)]
-    # Measured: no verdict in 10 min / 10 GB even for |A| = 2, |B| = 0.  IndexSet keeps its elements in a heap vector; CBMC
-    # loses the enum tag of a heap-resident `Value` during symbolic execution and walks `impl Hash for Value` for all ~50
-    # variants (each through SipHash) on every insert/lookup.  The generator is kept for the record; the harnesses are not
-    # part of the claim (see "outside").
-    for n, op in enumerate(SETOPS if os.environ.get("VERIF_C14_SETOPS") else []):
-        relp = SETOPS[op][0]
+    # Set relations and membership (machines/set): the real solve() bodies over the IndexSet model (engine/models/indexset_model.rs),
+    # from arbitrary valid set states of known size.  The set-VALUED operations (union, intersection, difference, symmetric
+    # difference) build a result whose length is symbolic: the unwritten slots of the result vector have no known enum tag for
+    # CBMC's symbolic execution and every later `Value == Value` against them walks the whole derived PartialEq (ValueKind
+    # recursion, matrix iterators): measured out of memory (10 GB) after 20 min for union 2+1.  Their generator is kept, tier off.
+    sizes = [(2, 0), (0, 2), (1, 1), (2, 1), (1, 2), (2, 2), (0, 0), (3, 2), (2, 3), (3, 3)]
+    quick_sizes = {(2, 2), (2, 1), (0, 2), (2, 0)}
+    for n, op in enumerate(SETOPS):
+        relp, struct, kind = SETOPS[op]
         pre[("set", relp)] = SET_PRELUDE
         for k, (na, nb) in enumerate(sizes):
-            if SETOPS[op][2] == "mem" and nb != 0 and (na, nb) != (2, 2):
+            if kind == "mem" and nb != 0:
                 continue
-            q = "quick" if (na, nb) in ((2, 0), (2, 2)) or (k == (seed + n) % len(sizes)) else "thorough"
-            hs.append(gen_setop(op, na, nb, q))
+            if kind == "op" and max(na, nb) > 2:
+                continue
+            q = "quick" if ((na, nb) in quick_sizes or (kind == "mem" and na == 2)) else ("rot" if max(na, nb) < 3 else "thorough")
+            h = gen_setop(op, na, nb, q)
+            if kind == "op":
+                h.tier = "off"
+                h.off_reason = ("set-valued result of symbolic length: no verdict (out of memory at 10 GB after 1250 s for union 2+1, "
+                                "also under the IndexSet model, the u8 feature slice and the Value::clone stub)")
+            hs.append(h)
     return {
         "harnesses": hs,
         "quick_rot_fraction": 0.3,
         "incrate_prelude": pre,
-        "explanation": "Kani/CBMC over the real `impl Hash for Value/MechSet/MechTuple/Matrix<T>` and the derived PartialEq: for two symbolic "
+        "stubs": ["std::fmt::format -> String::new()", "indexmap::IndexSet -> Vec-backed model (cfg(kani) only, engine/models/indexset_model.rs)",
+                  "Value::kind -> ValueKind::U8 in the set relation harnesses (every Value there is a Value::U8 element)"],
+        "explanation": "Kani/CBMC over the real solve() of the set relation / membership functions of machines/set on arbitrary valid sets "
+                       "(IndexSet model), and over the real `impl Hash for Value/MechSet/MechTuple/Matrix<T>` and the derived PartialEq: for two symbolic "
                        "values of one variant, equality implies an identical hash byte stream (recorded by a deterministic Hasher defined "
                        "in the harness); hashing is total; MechSet::from_vec bookkeeping on three symbolic elements",
-        "bounds": "two values per query, all bit patterns; strings 1 byte; tuples of 2; matrices 1x2; sets of 2 (order) and 3 (from_vec)",
-        "outside": ["IndexSet/hashbrown internals beyond the instances above", "the set operator kernels of machines/set (union, intersection, difference, symmetric difference, subset, superset, membership): harnesses exist (VERIF_C14_SETOPS=1) but get no verdict - heap-resident Values lose their enum tag for CBMC; only the Hash/Eq contract they rely on is decided", "set comprehensions and the kind check of "
+        "bounds": "hash/eq: two values per query, all bit patterns; strings 1 byte; tuples of 2; matrices 1x2.  set relations "
+                  "(subset, superset, proper subset/superset, disjoint, equals, not equals) and membership: sets of 0-3 distinct u8 elements "
+                  "from {0,1,2,3} in every insertion order, from_vec on 3 symbolic u8",
+        "outside": ["IndexSet itself: replaced by the insertion-ordered duplicate-free list model engine/models/indexset_model.rs in the "
+                    "verification build (hashbrown gets no CBMC verdict); its agreement with indexmap rests on the Hash/Eq contract decided by "
+                    "the hash-eq harnesses", "the set-VALUED operators (union, intersection, difference, symmetric difference, insert, "
+                    "remove, powerset, cartesian product): harnesses exist (tier off) but get no verdict - a result vector of symbolic length "
+                    "leaves slots without a known enum tag", "set relations on elements other than u8 scalars", "set comprehensions and the kind check of "
                     "set literals (interpreter level)", "sets with more than 3 elements"],
         "caps": {"quick_timeout": 600, "thorough_timeout": 1500},
     }
